@@ -351,6 +351,6 @@ def first_diff(a, b, path=()):
 def main(ctx):
     if ctx.replay:
         print(open(ctx.replay).read()[:4000]); return
-    core.proof_leg(ctx, ["Mappy.Props.C09"])
+    core.proof_leg(ctx, ["Mappy.Props.C09", "Mappy.Props.C09Classes"])
     explore(ctx)
     core.finish(ctx, LEVEL_NOTE, RULE, search=lambda c: explore(c, scale=3.0))
